@@ -301,6 +301,15 @@ def main(argv):
         shutil.rmtree(work)
     os.makedirs(work)
     os.chdir(work)
+    try:
+        # experiments leave a "shadow" tree under /tmp/chpc-<user>-shadow that nothing removes: keep it in the work dir
+        import experiment.model.storage as _S
+        _shadow = os.path.join(work, "shadow")
+        os.makedirs(_shadow, exist_ok=True)
+        _S.ExperimentShadowDirectory.temporaryShadow = classmethod(
+            lambda cls, name: _S.ExperimentShadowDirectory(name, _shadow))
+    except Exception:
+        pass
     rendered = [render_package(job, p) for p in job["pkgs"]]
     install_listing_permutation(job["listperm"])
     dumps = []
